@@ -209,9 +209,9 @@ ExpandSign(value, minv, exp, mb, o) ==
 U(n) == FromNat(n)
 \* a parameter set is cheap for TLC if it is refused or needs few rings
 Cheap(v, m, e, b, lim) == LET pp == RpSignParams(v, m, e, b) IN ~pp.ok \/ pp.mant <= lim
-SmallVals == IF Thorough THEN { 0, 1, 2, 3, 4, 9, 10, 15, 16, 77, 100, 200, 255 } ELSE { 0, 1, 3, 10, 77, 255 }
+SmallVals == IF Thorough THEN { 0, 1, 2, 3, 4, 10, 16, 77, 100, 255 } ELSE { 0, 1, 3, 10, 77, 255 }
 SmallExps == IF Thorough THEN { -1, 0, 1, 2, 3, 18 } ELSE { -1, 0, 1 }
-SmallBits == IF Thorough THEN { 0, 1, 2, 3, 4, 5, 7, 8 } ELSE { 0 }
+SmallBits == IF Thorough THEN { 0, 1, 2, 3, 5, 8 } ELSE { 0 }
 Grid == { << "sign", U(v), U(m), e, b, DO >> : v \in SmallVals, m \in { 0, 1, 2, 3, 4, 9, 10, 15, 16, 77, 100, 200, 255 }, e \in SmallExps, b \in SmallBits }
         \cup { << "sign", U(v), Zero, e, 4, DO >> : v \in { 3, 77 }, e \in { 0, 1 } }
 GridCases == { c \in Grid : c[3] = Zero \/ c[3] = One \/ c[3] = c[2] }
@@ -232,7 +232,7 @@ BigCases ==
   \cup (IF Thorough THEN { << "sign", I64Max, Zero, 0, 0, [DO EXCEPT !.ml = 100, !.g = 2] >> } ELSE { })
   \cup { << "sign", U64Max, Zero, 0, 0, [DO EXCEPT !.ml = 3969] >>, << "sign", I64Max, Zero, 0, 0, [DO EXCEPT !.ml = 4000] >>,
          << "sign", U64Max, Zero, 0, 0, [DO EXCEPT !.pl = -2] >>, << "sign", U64Max, Zero, 0, 0, [DO EXCEPT !.pl = 5000] >> }
-  \cup (IF Thorough THEN { << "sign", v, m, e, b, DO >> : v \in { Pow2(62), Ten(18), Sub(U64Max, One) }, m \in { Zero }, e \in { 0, 4 }, b \in { 0, 33, 62 } }
+  \cup (IF Thorough THEN { << "sign", v, m, e, b, DO >> : v \in { Pow2(62), Ten(18), Sub(U64Max, One) }, m \in { Zero }, e \in { 0, 4 }, b \in { 0, 62 } }
                          \cup { << "sign", Pow2(40), U(12345), 3, 20, [DO EXCEPT !.ml = 1000, !.xl = 7, !.g = 3] >>,
                                 << "sign", One, Zero, 0, 64, DO >>,
                                 << "sign", Add(Pow2(63), U(5)), Zero, 7, 0, [DO EXCEPT !.g = 2] >>,
